@@ -907,7 +907,14 @@ class Evaluator:
             parts = []
             for op, c in zip(n.ops, n.comparators):
                 r = self._e(c, env, pc, res)
-                parts.append(cmp(type(op).__name__, left, r))
+                opn = type(op).__name__
+                folded = None
+                if opn in ("Is", "IsNot", "Eq", "NotEq"):
+                    # a module-level function / class of the project (a value picked from a table of handlers) is not None
+                    for x_, y_ in ((left, r), (r, left)):
+                        if x_ == NONE and y_[0] == "sym" and self._names_project_callable(y_[1]):
+                            folded = FALSE if opn in ("Is", "Eq") else TRUE
+                parts.append(folded if folded is not None else cmp(opn, left, r))
                 left = r
             return parts[0] if len(parts) == 1 else ("op", "and", tuple(parts))
         if isinstance(n, ast.IfExp):
@@ -1330,6 +1337,18 @@ class Evaluator:
             if len(args) == 2:
                 lvk = ("attr", args[0], args[1][1])
                 return env.get(lvk, self._attr(args[0], args[1][1], env))
+        if f[0] == "attr" and f[2] == "_replace" and f[1][0] == "nt" and not args and kws and f[1][1] in self.namedtuples:
+            flds = self.namedtuples[f[1][1]]
+            if all(k in flds for k, _v in kws):
+                vals = list(f[1][2])
+                for k, v_ in kws:
+                    vals[flds.index(k)] = v_
+                return ("nt", f[1][1], tuple(vals))            # record._replace(field=value)
+        if fname in ("np.isnan", "numpy.isnan", "math.isnan") and len(args) == 1 and not kws:
+            if is_num(args[0]) or args[0] in (TRUE, FALSE):
+                return FALSE                                     # a finite literal
+            if args[0] in (("attr", ("sym", "np"), "nan"), ("attr", ("sym", "numpy"), "nan"), ("attr", ("sym", "math"), "nan"), ("attr", ("sym", "np"), "NaN")):
+                return TRUE
         if fname == "dict" and len(args) == 1 and not kws and args[0][0] in ("list", "tuple") and args[0][1] \
                 and all(x[0] == "tuple" and len(x[1]) == 2 for x in args[0][1]):
             return ("dict", tuple((x[1][0], x[1][1]) for x in args[0][1]))            # dict([(k, v), ...])
@@ -1611,6 +1630,15 @@ class Evaluator:
 
     def _recv_of(self, n, env, pc):
         return self._e(n.func.value, env, pc, Result())
+
+    def _names_project_callable(self, name):
+        pr = self.project
+        if pr is None:
+            return False
+        for mod in (self.ctx_module, self.local_module):
+            if mod and ((mod + "." + name) in pr.funcs or (mod + "." + name) in pr.classes):
+                return True
+        return False
 
     def _callee(self, f):
         """(FunctionDef-bearing Func, is_bound_method) of a call target when it resolves to one project function."""
@@ -2072,6 +2100,15 @@ def module_env(project, modname, ev=None):
                 v = Evaluator(project, ev.namedtuples, module_env=env)._e(n.value, dict(env), (), Result())
             except RecursionError:
                 continue
+            if v[0] in ("dict", "tuple") and v[1] and any(a[0] == "call" for a in _all_terms(v)):
+                # rows built by small helper functions of the module (`F32: _float_row(np.float32)`): evaluate them with the module's
+                # own pure helpers inlined
+                try:
+                    v2 = Evaluator(project, ev.namedtuples, None, env, 4, modname, ())._e(n.value, dict(env), (), Result())
+                    if v2[0] == v[0] and not any(a[0] == "call" and not (a[1][0] == "attr" and a[1][1] in (("sym", "np"), ("sym", "numpy"))) for a in _all_terms(v2)):
+                        v = v2
+                except Exception:
+                    pass
             # keep only values built from numbers, PI and other constants
             if v[0] == "dict" and v[1] and _is_constant_table(project.mod(modname).tree, n.targets[0].id, v):
                 env[n.targets[0].id] = v      # a look-up table: a literal dictionary the module never mutates
@@ -2088,6 +2125,16 @@ def module_env(project, modname, ev=None):
                     not any(a[0] in ("call", "lambda") and not _const_slice(a) for a in atoms_of(v)):
                 env[n.targets[0].id] = v
     return env
+
+
+def _all_terms(t):
+    if isinstance(t, tuple):
+        if t and isinstance(t[0], str):
+            yield t
+        for x in t:
+            if isinstance(x, tuple):
+                for y in _all_terms(x):
+                    yield y
 
 
 def _is_constant_table(tree, name, value):
